@@ -615,7 +615,7 @@ func (g *gen) junkLine() string {
 func (g *gen) mutate(text []byte) []byte {
 	lines := strings.Split(strings.TrimSuffix(string(text), "\r\n"), "\r\n")
 	for n := g.r.Range(1, 4); n > 0; n-- {
-		switch g.r.Intn(9) {
+		switch g.r.Intn(11) {
 		case 0, 1: // insert a pool line
 			i := g.r.Intn(len(lines) + 1)
 			lines = append(lines[:i], append([]string{pick(g, linePool)}, lines[i:]...)...)
@@ -652,6 +652,37 @@ func (g *gen) mutate(text []byte) []byte {
 				}
 			}
 			lines[i] = string(b)
+		case 9, 10: // cut or corrupt a blob (hex / base64 value) inside an fmtp line
+			var idxs []int
+			for i, l := range lines {
+				if strings.HasPrefix(l, "a=fmtp:") && (strings.Contains(l, "config") || strings.Contains(l, "sprop")) {
+					idxs = append(idxs, i)
+				}
+			}
+			if len(idxs) > 0 {
+				i := idxs[g.r.Intn(len(idxs))]
+				l := lines[i]
+				p := strings.LastIndexAny(l, "=")
+				q := strings.IndexAny(l[p+1:], ";")
+				end := len(l)
+				if q >= 0 {
+					end = p + 1 + q
+				}
+				val := l[p+1 : end]
+				if len(val) > 2 {
+					switch g.r.Intn(3) {
+					case 0:
+						val = val[:2*g.r.Intn(len(val)/2+1)] // even length prefix
+					case 1:
+						val = val[:g.r.Intn(len(val)+1)]
+					case 2:
+						b := []byte(val)
+						b[g.r.Intn(len(b))] = "0123456789abcdefABCDEF+/=Zz"[g.r.Intn(27)]
+						val = string(b)
+					}
+					lines[i] = l[:p+1] + val + l[end:]
+				}
+			}
 		case 8: // insert a junk line
 			i := g.r.Intn(len(lines) + 1)
 			lines = append(lines[:i], append([]string{g.junkLine()}, lines[i:]...)...)
